@@ -81,8 +81,8 @@ func synthNested(kind string, depth int) (dt []byte, size int) {
 		case "cmp1":
 			out = append([]byte{0x16, 1, 0, 0}, le32(size)...)
 			out = append(out, 'm', 0, 0, 0, 0, 0, 0, 0)
-			out = append(out, le32(0)...)          // offset
-			out = append(out, 0, 0, 0, 0)          // dimensionality + reserved
+			out = append(out, le32(0)...)              // offset
+			out = append(out, 0, 0, 0, 0)              // dimensionality + reserved
 			out = append(out, make([]byte, 4+4+16)...) // permutation, reserved, 4 dim sizes
 			out = append(out, dt...)
 		case "arr":
